@@ -172,7 +172,7 @@ def harness_text(unit, prof, h):
     if cans is None:
         cans = [('bl_exc == 0', 'normal return'), ('bl_exc != 0', 'exceptional return')] if h['fn'] in unit.THROWING else [('1', 'return')]
     can = ['  if (%s) __CPROVER_assert(0, "VACUITY_CANARY %s of %s reachable under the requires clauses");' % (c, n, h['fn']) for c, n in cans]
-    return ['#ifndef NATIVE', 'void h_%s(void) {' % h['name']] + decls + ['  %s(%s);' % (cn, ', '.join(names))] + can + ['}', '#endif', '']
+    return ['#ifndef NATIVE', 'void h_%s(void) {' % h['name']] + decls + ['  ' + x for x in h.get('pre', [])] + ['  %s(%s);' % (cn, ', '.join(names))] + can + ['}', '#endif', '']
 
 
 # ------------------------------------------------------------------------------ cbmc
